@@ -11,7 +11,9 @@ def check(ctx):
         "flows only into ok(); nobody unwraps a ChannelFull; no blocking callee is reachable from a tracing call and the "
         "replay loops dequeue on every iteration; R3 CommitCollect/DropCollect are force-sent, force_send parks on every "
         "Full edge, the overflow list is FIFO with no overtaking, and Sender::drop flushes it oldest first; R4 StartCollect "
-        "and SubmitSpans use the droppable path; R5 the three capacities are positive compile-time constants (reported).")
+        "and SubmitSpans use the droppable path; R5 the three capacities are positive compile-time constants (reported); R6 a root whose StartCollect was lost still "
+        "has its later span sets delivered (stale path); R7 a scope refused at the scope limit leaves a trace in the stack's "
+        "state (known finding K4: it does not, so spans recorded under the refused parent are delivered under the enclosing one).")
     ctx.not_decided = "correctness of what is delivered during an episode and recovery after the queue drains (runtime)."
     facts = ctx.facts("E")
     scopes.rule_bounded_writes(ctx, facts, "R1")
@@ -29,6 +31,9 @@ def check(ctx):
     if c.need("R6"):
         # a root created while the queue was full loses only its StartCollect: its later span sets must still be delivered
         collector.rule_stale_kept(ctx, c, "R6")
+    # "every record that is delivered is still correct": a scope refused at the scope limit must not hand its local
+    # operations to the enclosing scope (known finding K4)
+    scopes.rule_refused_scope_masks(ctx, facts, "R7")
     caps = scopes.rule_capacities(ctx, facts, "R5")
     ctx.analysed.setdefault("E", {})["capacities"] = caps
 
